@@ -397,6 +397,9 @@ def grid_layout(ctx, rule="R09.5"):
 
 
 def run(ctx):
+    from .C13 import forcing_sites
+
+    forcing_sites(ctx, rule="R09.9")  # lat-lon preprocessing of vario_estimate: bins to radians exactly once, 2-D, no directions (shared with C13)
     from ..small import none_default_rule
 
     none_default_rule(ctx, "R09.8", ["variogram/"], 10)
